@@ -260,7 +260,10 @@ def Eng.onCfg (e : Eng) (toks : List String) : Eng :=
   let n := (kvOf toks "stores").toNat!
   let bits := (kvOf toks "txfree").toList
   let kinds := (kvOf toks "kinds").splitOn ","
-  let sqlStores := (List.range n).filter fun i => kinds.getD i "" == "sql"
+  -- Before fix 6ff38ea the SQL part store kept no chunk for an empty part, so such ids were exempt
+  -- from listing comparisons on SQL stores; since the fix no store kind is exempt.
+  let _ := kinds
+  let sqlStores : List Nat := []
   let grace := if kvOf toks "grace" == "large" then 1000000 else 1
   { e with n, sqlStores, kind := kvOf toks "kind",
            cfg := ⟨grace, List.range n, fun st => bits.getD st '0' == '1'⟩ }
@@ -332,8 +335,8 @@ def Eng.onRd (e : Eng) (toks : List String) : Eng := Id.run do
   let size := (toks.getD 5 "0").toNat!
   if toks.getD 6 "" != "ok" then
     -- "stays readable": the version was written by an acknowledged put of known content, or it has
-    -- been read completely before.  A version that could never be read (e.g. an empty part in the
-    -- SQL part store, which stores no chunk for it — C15) did not lose content.
+    -- been read completely before.  A version that could never be read did not *lose* content
+    -- (that would be C01's concern); it is counted, not judged.
     if e.expected.any (·.1 == ident) then
       return e.addVio "C08.committed-version-unreadable" s!"{ident}:GetObject-or-read-failed"
     else
@@ -416,7 +419,10 @@ def Eng.line (e : Eng) (l : String) : Eng :=
   | some "res" => e.onRes toks
   | some "x" => e.onX toks
   | some "orphan" =>
-    let e := e.stat "orphans"
+    let auto := toks.getD 3 "" == "auto"
+    let e := if auto then e.stat "orphans_left_by_failed_operations" else e.stat "orphans"
+    let e := if auto && e.resOk then
+        e.addDiv [s!"committed-operation-left-unreferenced-part:store{toks.getD 1 ""}:part{toks.getD 2 ""}"] else e
     { e with m := step e.cfg e.m (.orphan (toks.getD 1 "0").toNat! (toks.getD 2 "0").toNat!), lastGcClean := false }
   | some "anom" => e.onAnom toks
   | some "gc" => e.onGc toks
